@@ -920,6 +920,12 @@ Definition rcheck (r : orun) : list bool :=
    h_terminates r; h_stagnation_time r].
 
 (* ---- observed GOLEM(...) facade ---- *)
+(* what a field of a parameter object holds: the value this facade was given for it, the documented default
+   of the class (taken from a fresh interpreter), or something else (e.g. a value given to an earlier facade) *)
+Inductive fobs := FGiven | FDefault | FOther.
+Definition fobs_eqb (a b : fobs) : bool :=
+  match a, b with FGiven, FGiven | FDefault, FDefault | FOther, FOther => true | _, _ => false end.
+
 Record oapi := {
   a_cpu : Z;                                         (* joblib.cpu_count() on the machine of the run *)
   a_timeout : aval;
@@ -930,6 +936,8 @@ Record oapi := {
   a_req_timeout : option aval;                       (* requirements.timeout *)
   a_req_njobs : option aval;                         (* requirements.n_jobs *)
   a_njobs_elsewhere : bool;                          (* an n_jobs attribute on the gp / generation parameter objects *)
+  a_fields : list (string * dest * bool * fobs);     (* every field of the gp / requirements objects (but timeout, n_jobs):
+                                                        owner, given by THIS facade?, what the field holds *)
   a_dynamic : bool }.
 
 Definition tri_eqb (a b : bool * bool * bool) : bool :=
@@ -952,6 +960,11 @@ Definition aagree (a : oapi) : bool :=
       && opt_aval_eqb (lookup "n_jobs" (to_req o)) (a_req_njobs a)
       && Bool.eqb (is_some (lookup "n_jobs" (to_gp o)) || is_some (lookup "n_jobs" (to_gen o))) (a_njobs_elsewhere a)
       && Bool.eqb (dynamic_req o) (a_dynamic a)
+      (* a field holds the given value when the facade hands one to that object, else the class default *)
+      && forallb (fun f : string * dest * bool * fobs =>
+                           match f with
+                           | (k, d, _, ob) => fobs_eqb ob (if is_some (lookup_in d o k) then FGiven else FDefault)
+                           end) (a_fields a)
   | _, _ => false
   end.
 
@@ -994,8 +1007,17 @@ Definition a_njobs_ok (a : oapi) : bool :=
                (opt_aval_eqb (a_req_njobs a) (Some (ANum (inject_Z (a_cpu a + 1 + a_njobs a)))))
   end.
 
-Definition aholds (a : oapi) : bool := a_accepts a && a_keys a && a_timeout_ok a && a_njobs_ok a.
-Definition acheck (a : oapi) : list bool := [aagree a; a_accepts a; a_keys a; a_timeout_ok a; a_njobs_ok a].
+(* a limit this facade was not given stays at its documented default, a given one holds the given value -
+   whatever earlier facades of the same process were told *)
+Definition a_unset_ok (a : oapi) : bool :=
+  forallb (fun f : string * dest * bool * fobs =>
+             match f with
+             | (_, _, given, ob) => fobs_eqb ob (if given : bool then FGiven else FDefault)
+             end) (a_fields a).
+
+Definition aholds (a : oapi) : bool := a_accepts a && a_keys a && a_timeout_ok a && a_njobs_ok a && a_unset_ok a.
+Definition acheck (a : oapi) : list bool :=
+  [aagree a; a_accepts a; a_keys a; a_timeout_ok a; a_njobs_ok a; a_unset_ok a].
 
 (* the executable form of the whole property on any observation *)
 Inductive observation := ObsUnit (c : ucase) | ObsRun (r : orun) | ObsApi (a : oapi).
